@@ -120,6 +120,8 @@ def check(ctx):
                 for t in terms:
                     if t[0] == "len" and t[1][0] == "bufref":
                         measured[t[1][1]] = t[1][2]
+                    elif t == ("const", 0):
+                        pass          # a sum started at zero
                     else:
                         extra.append(t)
                 lay = enc.layout()
